@@ -19,6 +19,34 @@ CLAIMED = {
              "the pinned _get. Tie: get() after every operation of generated histories (4 configurations) equals the model's.",
         technique="Lean 4 proof (induction over histories on a tree model) + correspondence check of model vs code",
         design_ref="6/C01"),
+    "C02": dict(
+        text="Theorems for EVERY hash function H (no assumption): reachable tries are canonical, the canonical tree of a mapping is "
+             "unique (canon_unique), hence two histories with equal contents yield the same tree and the same root "
+             "(run_eq_of_spec_eq, root_depends_only_on_contents, root_batched), the empty mapping has the blank root, which is "
+             "BLANK_NODE_HASH for Keccak (kernel-evaluated). Conformance of the model's rlp/hex-prefix/Keccak encoding with the "
+             "Yellow Paper is pinned by four ethereum/tests roots + constants on every run and by an independent Yellow-Paper "
+             "oracle in the harness; the theorem tree = c(J,0) is not proved. Tie: root after every operation.",
+        technique="Lean 4 proof (canonical-form uniqueness) + correspondence check with external test vectors",
+        design_ref="6/C02"),
+    "C05": dict(
+        text="Theorems about the world executor, for every hashing: operations on the batch trie never touch the underlying "
+             "database or the outer tries/counts (batch_ops_leave_base, via opSetDel_base), leaving by an exception restores the "
+             "world exactly (abort_restores_world), a failing commit write leaves outer roots/trees/counts unchanged with a prefix "
+             "of the buffered writes applied (commit_failure_keeps_outer, commitLoop_fail_prefix), a normal exit adopts the batch "
+             "root (commit_adopts_root). That the committed database is complete and free of intermediate-only nodes is tied by "
+             "the exact-database correspondence and the oracle, not yet proved. Tie: exact db, root and counts after every step, "
+             "every exit kind and position.",
+        technique="Lean 4 proof (invariants of the world executor) + correspondence check with fault injection",
+        design_ref="6/C05"),
+    "C06": dict(
+        text="Theorems for every hashing: the effect-instrumented setE/deleteE compute set/delete (deleteE on canonical trees) and "
+             "satisfy the reference-count balance for every hash (occurrences gained = persists, lost = prunes), including "
+             "normalisation, extension merging and the reference-unchanged short-circuits, under the run-level hypothesis RefSound "
+             "(no collision in this run; no injectivity assumed). The lift through _complete_pruning / batches to 'db keys = live "
+             "nodes, counts = occurrences' is tied by the correspondence check (exact key set, counts, regenerate_ref_count after "
+             "every operation) and the oracle; the world-level theorem is future work.",
+        technique="Lean 4 proof (structural induction, balance invariant) + correspondence check",
+        design_ref="6/C06"),
 }
 REASON_PENDING = "check not built yet in this revision (work in progress, see DESIGN.md section 10)"
 
